@@ -8,37 +8,7 @@ OUTSIDE = ["more than 5 atomic jobs", "nesting depth > 3", "re-running the same 
 ASSUMPTIONS = []
 
 
-def edit_before_run(api, run):
-    """ordinary use before the run: the graph is inspected (which computes the cached reverse links), then edited
-    through the public API, then run"""
-    top = run.top
-    list(top.obj.exit_jobs())
-    list(top.obj.successors(*[c.obj for c in top.children[:1]]))
-    kids = top.children
-    kind = api.choice("edit", 3)
-    if kind == 0:
-        return
-    if kind == 1:           # drop one requirement edge
-        edges = [(a, b) for b in kids for a in b.reqs]
-        if not edges:
-            api.assume(False)
-        a, b = edges[api.choice("which_edge", len(edges))]
-        b.obj.requires(a.obj, remove=True)
-        b.reqs.remove(a)
-    else:                   # take one job out, re-linking around it
-        k = api.choice("which_job", len(kids))
-        victim = kids[k]
-        top.obj.bypass_and_remove(victim.obj)
-        for m in kids:
-            if victim in m.reqs:
-                m.reqs.remove(victim)
-                for r in victim.reqs:
-                    if r not in m.reqs:
-                        m.reqs.append(r)
-        kids.remove(victim)
-        del run.nodes[victim.name]
-        run.removed = getattr(run, "removed", []) + [victim]
-    api.note("c02_edits")
+from props.common import edit_before_run        # noqa: E402
 
 
 def harnesses(tier):
